@@ -111,7 +111,7 @@ Definition nrel (ns : C.nst) (ns2 : D.nst) : Prop :=
 
 (* Calc2 states on which stop and leafev do nothing: no operation, a completed leaf, a completed node *)
 Definition inert (st : D.ost) : Prop :=
-  match st with D.OFin | D.OLeaf true _ | D.OCompl _ _ | D.OStore _ _ _ => True | _ => False end.
+  match st with D.OFin | D.OLeaf true _ | D.OCompl _ _ => True | _ => False end.
 
 (* Calc's OFin (completed, or never started) corresponds to Calc2's inert states *)
 Fixpoint sim_st (st : C.ost) (st2 : D.ost) {struct st} : Prop :=
@@ -171,41 +171,17 @@ Proof.
   induction l as [|x l IH]; [reflexivity|].
   change (erase (x :: l)) with (erase_x x ++ erase l). rewrite filter_app, app_length, IH.
   destruct x as [t|o n c| | |]; try reflexivity.
-  destruct t as [? ? ? ? ? ? ?|?|? ?|[|]|?|? ?|?|? ?|?|?|?|?|? ?|? ?]; reflexivity.
+  destruct t as [? ? ? ? ? ? ?|?|? ?|[|]|?|? ?|?|? ?|?|?|?|?]; reflexivity.
 Qed.
 
 (* destructor cascades of embedded expressions show only leaf destructions, which Calc does not have *)
-Lemma unwrap_idem_r st : D.unwrap (D.unwrap st) = D.unwrap st.
-Proof. induction st; simpl; auto. Qed.
-Lemma unwrap_not_store_r st : forall sk v s, D.unwrap st <> D.OStore sk v s.
-Proof. induction st; simpl; intros; try discriminate. apply IHst. Qed.
-Lemma wdtor_unwrap_r st : D.wdtor (D.unwrap st) = [].
-Proof. induction st; simpl; auto. Qed.
-Lemma dtor_unwrap_r e st : D.dtor e st = D.dtor e (D.unwrap st) ++ D.wdtor st.
-Proof. destruct e; simpl; rewrite ?unwrap_idem_r, ?wdtor_unwrap_r, ?app_nil_r; reflexivity. Qed.
-Lemma erase_wdtor st : erase_tl (D.wdtor st) = [].
-Proof. induction st; simpl; try reflexivity. rewrite erase_tl_app, IHst. reflexivity. Qed.
-Lemma erase_stored k st : erase_tl (D.stored k st) = [].
-Proof. destruct st; simpl; try reflexivity. destruct (D.own_store k k0); reflexivity. Qed.
 Lemma erase_dtor : forall e st, erase_tl (D.dtor (embed e) st) = [].
 Proof.
-  induction e as [v|x| |n|id|id|k s IHs|k a IHa b IHb]; intros st; rewrite dtor_unwrap_r, erase_tl_app, (erase_wdtor st), app_nil_r;
-    pose proof (unwrap_idem_r st) as U;
-    destruct (D.unwrap st) as [|c sn|ns sa sb|sa sb|v'|? ? ?]; simpl in U; try (exfalso; exact (unwrap_not_store_r _ _ _ _ U));
+  induction e as [v|x| |n|id|id|k s IHs|k a IHa b IHb]; intros st; destruct st as [|c sn|ns sa sb|sa sb|v'];
     try reflexivity;
-    try (destruct k; simpl; rewrite ?app_nil_r; solve [reflexivity|apply IHs]);
-    simpl; rewrite app_nil_r, !erase_tl_app, !erase_stored;
-    destruct (D.dtor_b_first (embed_bk k)); rewrite erase_tl_app, IHa, IHb; reflexivity.
+    try (destruct k; simpl; solve [reflexivity|apply IHs]);
+    simpl; destruct (D.dtor_b_first (embed_bk k)); rewrite erase_tl_app, IHa, IHb; reflexivity.
 Qed.
-
-Lemma erase_ctor_ev h : erase_tl (D.ctor_ev h) = [].
-Proof. destruct h as [[? ?]|]; reflexivity. Qed.
-Lemma erase_dtor_ev h : erase_tl (D.dtor_ev h) = [].
-Proof. destruct h as [[? ?]|]; reflexivity. Qed.
-Lemma erase_dtor1 : forall h e st, erase_tl (D.dtor1 h (embed e) st) = [].
-Proof. intros. unfold D.dtor1. rewrite erase_tl_app, erase_ctor_ev, erase_dtor. reflexivity. Qed.
-Lemma inert_wrap h st : inert st -> inert (D.wrap h st).
-Proof. destruct h as [[? ?]|]; simpl; auto. Qed.
 
 (* [stage 5] nothing in the fragment throws from connect *)
 Lemma cthrows_embed : forall e, D.cthrows (embed e) = false.
@@ -235,8 +211,8 @@ Lemma caught_embed : forall c o st tr r, D.caught c o (st, tr, option_map embed_
 Proof. intros c o st tr [[| |]|]; reflexivity. Qed.
 Lemma conc_in_embed : forall k o, D.conc_in k (embed_o o) = embed_o o.
 Proof. destruct k, o; reflexivity. Qed.
-Lemma conc_reap_embed : forall k i ns c sc tr, D.conc_reap (embed_bk k) i ns c (sc, tr, None) = (sc, tr, None).
-Proof. reflexivity. Qed.
+Lemma conc_reap_embed : forall k c r, D.conc_reap (embed_bk k) c r = r.
+Proof. destruct k; reflexivity. Qed.
 
 (* ------------------------------------------------------------------------------------------------ *)
 (* Environments and node states                                                                     *)
@@ -269,8 +245,6 @@ Lemma nrel_set_reg : forall ns ns2 b, nrel ns ns2 -> nrel (C.ns_set_reg ns b) (D
 Proof. unfold nrel; simpl; intuition. Qed.
 Lemma nrel_set_saved : forall ns ns2 o, nrel ns ns2 ->
   nrel (C.ns_set_saved ns o) (D.ns_set_saved ns2 (option_map embed_o o)).
-Proof. unfold nrel; simpl; intuition. Qed.
-Lemma nrel_set_cell : forall ns ns2 c, nrel ns ns2 -> nrel ns (D.ns_set_cell ns2 c).
 Proof. unfold nrel; simpl; intuition. Qed.
 Lemma nrel_env : forall ns ns2, nrel ns ns2 -> env_rel (C.n_env ns) (D.n_env ns2).
 Proof. unfold nrel; tauto. Qed.
@@ -333,12 +307,12 @@ Qed.
 (* Inert states                                                                                     *)
 Lemma stop2_inert : forall e st cx, inert st -> D.stop e st cx = (st, [], None).
 Proof.
-  intros e st cx H. destruct st as [|[|] sn|ns sa sb|sa sb|v|sk0 sv0 ss0]; try contradiction H;
+  intros e st cx H. destruct st as [|[|] sn|ns sa sb|sa sb|v]; try contradiction H;
     destruct e as [v'|x| |n|id|id|id c|id l| |id|k s|k a b]; reflexivity.
 Qed.
 Lemma leafev2_inert : forall e st id o cx, inert st -> D.leafev e st id o cx = ((st, [], None), false).
 Proof.
-  intros e st id o cx H. destruct st as [|[|] sn|ns sa sb|sa sb|v|sk0 sv0 ss0]; try contradiction H;
+  intros e st id o cx H. destruct st as [|[|] sn|ns sa sb|sa sb|v]; try contradiction H;
     destruct e as [v'|x| |n|i|i|i c|i l| |i|k s|k a b]; reflexivity.
 Qed.
 Lemma stop1_fin : forall e, C.stop e C.OFin = (C.OFin, [], None).
@@ -380,47 +354,17 @@ Qed.
 #[local] Hint Resolve env_rel_with_stop env_rel_bind env_rel_q env_rel_unstoppable env_rel_own env_rel_un
   env_rel_root nrel_set_env nrel_set_own nrel_set_reg nrel_set_saved nrel_env nrel_stop_env nrel_conc0 : rf.
 #[local] Hint Extern 1 (inert _) => exact I : rf.
-#[local] Hint Resolve nrel_set_cell : rf.
 #[local] Hint Extern 1 (nrel (C.mk_nst ?p _) _) => apply (nrel_mk p) : rf.
 #[local] Hint Extern 1 (nrel (C.ns_set_ph _ ?p) _) => apply (nrel_set_ph _ _ p) : rf.
 #[local] Hint Extern 1 (nrel (C.ns_set_saved _ ?o) _) => apply (nrel_set_saved _ _ o) : rf.
 
-(* [stage 6] conc_reap on related results: the Calc2 side may wrap the completed child (Calc: OFin) in a store and
-   emit events that erasure drops *)
-Lemma conc_reap_rel : forall k i ns c st st2 tr2 o, sim_st st st2 -> (forall x, o = Some x -> st = C.OFin) ->
-  exists st2' ex, D.conc_reap (embed_bk k) i ns c (st2, tr2, option_map embed_o o) = (st2', tr2 ++ ex, option_map embed_o o) /\
-                  sim_st st st2' /\ erase_tl ex = [].
-Proof.
-  intros k i ns c st st2 tr2 o Hs Hf. unfold D.conc_reap.
-  destruct o as [[v|x|]|]; simpl; try (exists st2, []; rewrite app_nil_r; auto; fail).
-  assert (st = C.OFin) as -> by (eapply Hf; reflexivity).
-  destruct k; simpl; try (exists st2, []; rewrite app_nil_r; auto; fail).
-  - eexists _, _; split; [reflexivity|]. split; [exact I|reflexivity].
-  - destruct i; [exists st2, []; rewrite app_nil_r; auto|].
-    eexists _, _; split; [reflexivity|]. split; [exact I|reflexivity].
-Qed.
-#[local] Arguments D.conc_reap : simpl never.
-Ltac reap_norm :=
-  repeat match goal with
-  | |- context [D.conc_reap ?k ?i ?ns ?c (?s, ?t, Some (embed_o ?o))] =>
-      change (D.conc_reap k i ns c (s, t, Some (embed_o o))) with (D.conc_reap k i ns c (s, t, option_map embed_o (Some o)))
-  | |- context [D.conc_reap ?k ?i ?ns ?c (?s, ?t, @None D.outcome)] =>
-      change (D.conc_reap k i ns c (s, t, @None D.outcome)) with (D.conc_reap k i ns c (s, t, option_map embed_o (@None C.outcome)))
-  end;
-  repeat match goal with
-  | Hs : sim_st ?st ?st2, Hf : (forall x, ?o = Some x -> ?st = C.OFin)
-    |- context [D.conc_reap (embed_bk ?k) ?i ?ns ?c (?st2, ?tr2, option_map embed_o ?o)] =>
-      let st2' := fresh "st2r" in let ex := fresh "ex" in let E := fresh "E" in let Hs' := fresh "Hsim" in let Hx := fresh "Hex" in
-      destruct (conc_reap_rel k i ns c st st2 tr2 o Hs Hf) as (st2' & ex & E & Hs' & Hx);
-      rewrite E; clear E; clear Hs
-  end.
 Ltac use_rel H :=
   let st := fresh "st" in let tr := fresh "tr" in let o := fresh "r" in
   let st2 := fresh "st2" in let tr2 := fresh "tr2" in
   let E1 := fresh "E1" in let E2 := fresh "E2" in let Hs := fresh "Hsim" in let Ht := fresh "Htr" in
   let Hf := fresh "Hfin" in
   destruct (res_rel4_elim _ _ H) as (st & tr & o & st2 & tr2 & E1 & E2 & Hs & Ht & Hf);
-  rewrite ?E1, ?E2; clear H E1 E2; subst tr; try reap_norm.
+  rewrite ?E1, ?E2; clear H E1 E2; subst tr.
 
 Ltac step_start IH :=
   match goal with
@@ -443,11 +387,10 @@ Ltac step_stop IH :=
     end
   end.
 
-Ltac rw_ex := repeat match goal with H : erase_tl ?ex = [] |- context [erase_tl ?ex] => rewrite H end.
 Ltac fin :=
   apply res_rel4_intro;
   [ simpl; auto 6 with rf
-  | simpl; rewrite ?erase_tl_app, ?erase_dtor, ?erase_dtor1, ?erase_dtor_ev; rw_ex; rewrite ?app_nil_r; try reflexivity
+  | simpl; rewrite ?erase_tl_app, ?erase_dtor, ?app_nil_r; try reflexivity
   | try reflexivity
   | try (intros ? ?; solve [reflexivity|discriminate]) ].
 
@@ -511,7 +454,7 @@ Proof.
   destruct st as [|c sn|ns sc x].
   - rewrite stop1_fin, stop2_inert by exact Hs. fin.
   - simpl in Hs. subst st2. simpl. fin.
-  - destruct st2 as [|c2 sn2|ns2 sc2 x2|sa2 sb2|v2|? ? ?]; try contradiction Hs.
+  - destruct st2 as [|c2 sn2|ns2 sc2 x2|sa2 sb2|v2]; try contradiction Hs.
     destruct Hs as (Hn & Hc & Hx). rewrite stop2_un.
     assert (G : res_rel4
       (let ns' := C.ns_set_env ns (C.env_with_stop (C.n_env ns) true) in
@@ -563,7 +506,7 @@ Ltac use_leaf H :=
   let E1 := fresh "E1" in let E2 := fresh "E2" in let Hs := fresh "Hsim" in let Ht := fresh "Htr" in
   let Hf := fresh "Hfin" in
   destruct (leaf_rel_elim _ _ H) as (st & tr & o & hit & st2 & tr2 & E1 & E2 & Hs & Ht & Hf);
-  rewrite ?E1, ?E2; clear H E1 E2; subst tr; try reap_norm.
+  rewrite ?E1, ?E2; clear H E1 E2; subst tr.
 
 Ltac step_leaf IH :=
   match goal with
@@ -582,7 +525,7 @@ Proof.
   destruct st as [|c sn|ns sc x].
   - rewrite leafev1_fin, leafev2_inert by exact Hs. apply leaf_rel_intro. fin.
   - simpl in Hs. subst st2. simpl. apply leaf_rel_intro. fin.
-  - destruct st2 as [|c2 sn2|ns2 sc2 x2|sa2 sb2|v2|? ? ?]; try contradiction Hs.
+  - destruct st2 as [|c2 sn2|ns2 sc2 x2|sa2 sb2|v2]; try contradiction Hs.
     destruct Hs as (Hn & Hc & Hx). rewrite leafev2_un, un_in_embed. simpl.
     step_leaf IHleaf. rewrite thrown_embed.
     destruct r as [oc|]; simpl; [apply un_done_leaf_rel|apply leaf_rel_intro; fin].
@@ -592,8 +535,8 @@ Qed.
 (* Atoms                                                                                            *)
 Ltac by_state Hs st st2 :=
   destruct st as [|[|] [|]|? ? ?]; simpl in Hs;
-  [destruct st2 as [|[|] ?|? ? ?|? ?|?|? ? ?]; try contradiction Hs|subst st2..|
-   destruct st2 as [|? ?|? ? ?|? ?|?|? ? ?]; try contradiction Hs].
+  [destruct st2 as [|[|] ?|? ? ?|? ?|?]; try contradiction Hs|subst st2..|
+   destruct st2 as [|? ?|? ? ?|? ?|?]; try contradiction Hs].
 
 Lemma atom_stop_ok : forall e, (forall k s, e <> C.Un k s) -> (forall k a b, e <> C.Bin k a b) -> stop_ok e.
 Proof.
@@ -627,25 +570,24 @@ Definition start2_seq (k : C.bkind) (a b : C.sexpr) (en : D.env) (cx : nat) (ra0
       match D.after_first (embed_bk k) en oa with
       | inl o => D.seq_pass (embed_bk k) (embed a) sa tra o
       | inr (en2, sv) =>
-          let cl := D.let_cell (embed_bk k) oa in
-          let tra' := tra ++ D.dtor1 (D.held (embed_bk k) sv cl) (embed a) sa in
+          let tra' := tra ++ D.dtor (embed a) sa in
           let '(sb, trb, rb) := D.start (embed b) en2 cx in
           match rb with
-          | None => (D.ONode (D.ns_set_cell (D.ns_set_saved (D.mk_nst D.PSecond en) sv) cl) D.OFin sb, tra' ++ trb, None)
-          | Some ob => D.seq_final (embed_bk k) (D.held (embed_bk k) sv cl) (embed b) sb (tra' ++ trb) (D.after_second (embed_bk k) sv ob)
+          | None => (D.ONode (D.ns_set_saved (D.mk_nst D.PSecond en) sv) D.OFin sb, tra' ++ trb, None)
+          | Some ob => D.seq_final (embed_bk k) (embed b) sb (tra' ++ trb) (D.after_second (embed_bk k) sv ob)
           end
       end
   end.
 
 Definition start2_conc (k : C.bkind) (a b : C.sexpr) (en : D.env) (cx : nat) : D.res :=
   let ns0 := D.ns_set_own (D.ns_set_reg (D.mk_nst D.PBoth en) (negb (D.e_stopped en))) (D.e_stopped en) in
-  let '(sa, tra, ra) := D.conc_reap (embed_bk k) false ns0 (embed a) (D.start (embed a) (D.env_own en (D.own_stop ns0)) cx) in
+  let '(sa, tra, ra) := D.start (embed a) (D.env_own en (D.own_stop ns0)) cx in
   let '(ns1, _, _) :=
       match ra with
       | Some oa => D.conc_child_done (embed_bk k) ns0 false oa
       | None => (ns0, false, None)
       end in
-  let '(sb, trb, rb) := D.conc_reap (embed_bk k) true ns1 (embed b) (D.start (embed b) (D.env_own en (D.own_stop ns1)) cx) in
+  let '(sb, trb, rb) := D.start (embed b) (D.env_own en (D.own_stop ns1)) cx in
   match rb with
   | None => (D.ONode ns1 sa sb, tra ++ trb, None)
   | Some ob =>
@@ -654,7 +596,7 @@ Definition start2_conc (k : C.bkind) (a b : C.sexpr) (en : D.env) (cx : nat) : D
       | Some _ => D.finish_conc (embed_bk k) (embed a) (embed b) ns2 sa sb (tra ++ trb) fin false
       | None =>
           if newly then
-            let '(sa', tra2, ra2) := D.conc_reap (embed_bk k) false ns2 (embed a) (D.stop (embed a) sa cx) in
+            let '(sa', tra2, ra2) := D.stop (embed a) sa cx in
             match ra2 with
             | Some oa =>
                 let '(ns3, _, fin3) := D.conc_child_done (embed_bk k) ns2 false oa in
@@ -674,7 +616,7 @@ Definition stop2_conc (k : C.bkind) (a b : C.sexpr) (ns : D.nst) (sa sb : D.ost)
   if D.own_stop ns then (D.ONode ns' sa sb, [], None)
   else
     let ns1 := D.ns_set_own ns' true in
-    let '(sb', trb, rb) := if D.bdone ns1 then (sb, [], None) else D.conc_reap (embed_bk k) true ns1 (embed b) (D.stop (embed b) sb cx) in
+    let '(sb', trb, rb) := if D.bdone ns1 then (sb, [], None) else D.stop (embed b) sb cx in
     let '(ns2, _, fin1) :=
         match rb with
         | Some ob => D.conc_child_done (embed_bk k) ns1 true ob
@@ -683,7 +625,7 @@ Definition stop2_conc (k : C.bkind) (a b : C.sexpr) (ns : D.nst) (sa sb : D.ost)
     match fin1 with
     | Some _ => D.finish_conc (embed_bk k) (embed a) (embed b) ns2 sa sb' trb fin1 (D.leaky (embed_bk k))
     | None =>
-        let '(sa', tra, ra) := if D.adone ns2 then (sa, [], None) else D.conc_reap (embed_bk k) false ns2 (embed a) (D.stop (embed a) sa cx) in
+        let '(sa', tra, ra) := if D.adone ns2 then (sa, [], None) else D.stop (embed a) sa cx in
         let '(ns3, _, fin2) :=
             match ra with
             | Some oa => D.conc_child_done (embed_bk k) ns2 false oa
@@ -704,12 +646,11 @@ Lemma stop2_bin : forall k a b ns sa sb cx, D.stop (embed (C.Bin k a b)) (D.ONod
             match D.after_first (embed_bk k) (D.n_env ns') oa with
             | inl o => D.seq_pass (embed_bk k) (embed a) sa' tra o
             | inr (en2, sv) =>
-                let cl := D.let_cell (embed_bk k) oa in
-                let tra' := tra ++ D.dtor1 (D.held (embed_bk k) sv cl) (embed a) sa' in
+                let tra' := tra ++ D.dtor (embed a) sa' in
                 let '(sb', trb, rb) := D.start (embed b) en2 cx in
                 match rb with
-                | None => (D.ONode (D.ns_set_cell (D.ns_set_saved (D.ns_set_ph ns' D.PSecond) sv) cl) D.OFin sb', tra' ++ trb, None)
-                | Some ob => D.seq_final (embed_bk k) (D.held (embed_bk k) sv cl) (embed b) sb' (tra' ++ trb) (D.after_second (embed_bk k) sv ob)
+                | None => (D.ONode (D.ns_set_saved (D.ns_set_ph ns' D.PSecond) sv) D.OFin sb', tra' ++ trb, None)
+                | Some ob => D.seq_final (embed_bk k) (embed b) sb' (tra' ++ trb) (D.after_second (embed_bk k) sv ob)
                 end
             end
         end
@@ -717,7 +658,7 @@ Lemma stop2_bin : forall k a b ns sa sb cx, D.stop (embed (C.Bin k a b)) (D.ONod
         let '(sb', trb, rb) := D.stop (embed b) sb cx in
         match rb with
         | None => (D.ONode ns' sa sb', trb, None)
-        | Some ob => D.seq_final (embed_bk k) (D.held (embed_bk k) (D.saved ns) (D.cell ns)) (embed b) sb' trb (D.after_second (embed_bk k) (D.saved ns) ob)
+        | Some ob => D.seq_final (embed_bk k) (embed b) sb' trb (D.after_second (embed_bk k) (D.saved ns) ob)
         end
     end
   else stop2_conc k a b ns sa sb cx.
@@ -732,7 +673,7 @@ Definition leafev2_conc (k : C.bkind) (a b : C.sexpr) (ns : D.nst) (sa sb : D.os
                      | Some v => if D.bin_throw (embed_bk k) false then fst (D.leafev (embed a) sa id (D.OValK v) cx) else r0
                      | None => r0
                      end in
-            (D.conc_reap (embed_bk k) false ns (embed a) r, h)) in
+            (r, h)) in
   if hita then
     match ra with
     | None => ((D.ONode ns sa' sb, tra, None), true)
@@ -742,7 +683,7 @@ Definition leafev2_conc (k : C.bkind) (a b : C.sexpr) (ns : D.nst) (sa sb : D.os
         | Some _ => (D.finish_conc (embed_bk k) (embed a) (embed b) ns1 sa' sb tra fin false, true)
         | None =>
             if newly then
-              let '(sb', trb, rb) := D.conc_reap (embed_bk k) true ns1 (embed b) (D.stop (embed b) sb cx) in
+              let '(sb', trb, rb) := D.stop (embed b) sb cx in
               match rb with
               | Some ob =>
                   let '(ns2, _, fin2) := D.conc_child_done (embed_bk k) ns1 true ob in
@@ -755,7 +696,7 @@ Definition leafev2_conc (k : C.bkind) (a b : C.sexpr) (ns : D.nst) (sa sb : D.os
   else
     let '((sb', trb, rb), hitb) :=
         if D.bdone ns then ((sb, [], None), false)
-        else (let (r, h) := D.leafev (embed b) sb id (D.tmode o) cx in (D.conc_reap (embed_bk k) true ns (embed b) r, h)) in
+        else (let (r, h) := D.leafev (embed b) sb id (D.tmode o) cx in (r, h)) in
     match rb with
     | None => ((D.ONode ns sa sb', trb, None), hitb)
     | Some ob =>
@@ -764,7 +705,7 @@ Definition leafev2_conc (k : C.bkind) (a b : C.sexpr) (ns : D.nst) (sa sb : D.os
         | Some _ => (D.finish_conc (embed_bk k) (embed a) (embed b) ns1 sa sb' trb fin false, hitb)
         | None =>
             if newly then
-              let '(sa', tra, ra) := D.conc_reap (embed_bk k) false ns1 (embed a) (D.stop (embed a) sa cx) in
+              let '(sa', tra, ra) := D.stop (embed a) sa cx in
               match ra with
               | Some oa =>
                   let '(ns2, _, fin2) := D.conc_child_done (embed_bk k) ns1 false oa in
@@ -792,12 +733,11 @@ Lemma leafev2_bin : forall k a b ns sa sb id o cx, D.leafev (embed (C.Bin k a b)
             match D.after_first (embed_bk k) (D.n_env ns) oa with
             | inl o' => (D.seq_pass (embed_bk k) (embed a) sa' tra o', hit)
             | inr (en2, sv) =>
-                let cl := D.let_cell (embed_bk k) oa in
-                let tra' := tra ++ D.dtor1 (D.held (embed_bk k) sv cl) (embed a) sa' in
+                let tra' := tra ++ D.dtor (embed a) sa' in
                 let '(sb', trb, rb) := D.start (embed b) en2 cx in
                 match rb with
-                | None => ((D.ONode (D.ns_set_cell (D.ns_set_saved (D.ns_set_ph ns D.PSecond) sv) cl) D.OFin sb', tra' ++ trb, None), hit)
-                | Some ob => (D.seq_final (embed_bk k) (D.held (embed_bk k) sv cl) (embed b) sb' (tra' ++ trb) (D.after_second (embed_bk k) sv ob), hit)
+                | None => ((D.ONode (D.ns_set_saved (D.ns_set_ph ns D.PSecond) sv) D.OFin sb', tra' ++ trb, None), hit)
+                | Some ob => (D.seq_final (embed_bk k) (embed b) sb' (tra' ++ trb) (D.after_second (embed_bk k) sv ob), hit)
                 end
             end
         end
@@ -811,7 +751,7 @@ Lemma leafev2_bin : forall k a b ns sa sb id o cx, D.leafev (embed (C.Bin k a b)
             end in
         match rb with
         | None => ((D.ONode ns sa sb', trb, None), hit)
-        | Some ob => (D.seq_final (embed_bk k) (D.held (embed_bk k) (D.saved ns) (D.cell ns)) (embed b) sb' trb (D.after_second (embed_bk k) (D.saved ns) ob), hit)
+        | Some ob => (D.seq_final (embed_bk k) (embed b) sb' trb (D.after_second (embed_bk k) (D.saved ns) ob), hit)
         end
     end
   else leafev2_conc k a b ns sa sb id o cx.
@@ -831,17 +771,14 @@ Lemma after_second_embed : forall k sv o,
   D.after_second (embed_bk k) (option_map embed_o sv) (embed_o o) = embed_o (C.after_second k sv o).
 Proof. intros k sv o. destruct k, sv as [[?|?|]|], o as [?|?|]; reflexivity. Qed.
 
-Ltac etr := simpl; rewrite ?erase_tl_app, ?erase_dtor, ?erase_dtor1, ?erase_dtor_ev; rw_ex; rewrite ?app_nil_r, <- ?app_assoc; try reflexivity.
+Ltac etr := simpl; rewrite ?erase_tl_app, ?erase_dtor, ?app_nil_r, <- ?app_assoc; try reflexivity.
 
 Lemma seq_pass_rel : forall k a sa2 tr2 tr o, erase_tl tr2 = tr ->
   res_rel4 (C.OFin, tr, Some o) (D.seq_pass (embed_bk k) (embed a) sa2 tr2 (embed_o o)).
 Proof. intros. subst. unfold D.seq_pass. destruct (D.eager_dtor (embed_bk k)); fin. Qed.
-Lemma seq_final_rel : forall k h b sb2 tr2 tr o, erase_tl tr2 = tr ->
-  res_rel4 (C.OFin, tr, Some o) (D.seq_final (embed_bk k) h (embed b) sb2 tr2 (embed_o o)).
-Proof.
-  intros. subst. unfold D.seq_final. destruct (D.eager_dtor (embed_bk k)); [fin|].
-  apply res_rel4_intro; [apply inert_wrap; exact I|reflexivity|reflexivity|intros; reflexivity].
-Qed.
+Lemma seq_final_rel : forall k b sb2 tr2 tr o, erase_tl tr2 = tr ->
+  res_rel4 (C.OFin, tr, Some o) (D.seq_final (embed_bk k) (embed b) sb2 tr2 (embed_o o)).
+Proof. intros. subst. unfold D.seq_final. destruct (D.eager_dtor (embed_bk k)); fin. Qed.
 
 Ltac step_af :=
   match goal with
@@ -881,7 +818,7 @@ Proof.
   destruct st as [|c sn|ns sa sb].
   - rewrite stop1_fin, stop2_inert by exact Hs. fin.
   - simpl in Hs. subst st2. simpl. fin.
-  - destruct st2 as [|c2 sn2|ns2 sa2 sb2|sa2' sb2'|v2|? ? ?]; try contradiction Hs.
+  - destruct st2 as [|c2 sn2|ns2 sa2 sb2|sa2' sb2'|v2]; try contradiction Hs.
     destruct Hs as (Hn & Ha & Hb). rewrite stop2_bin. simpl. rewrite Hk, (nrel_ph _ _ Hn).
     destruct (C.ph ns); simpl.
     + step_stop IHa. destruct r as [oa|]; simpl; [|fin].
@@ -904,7 +841,7 @@ Proof.
   destruct st as [|c sn|ns sa sb].
   - rewrite leafev1_fin, leafev2_inert by exact Hs. apply leaf_rel_intro. fin.
   - simpl in Hs. subst st2. simpl. apply leaf_rel_intro. fin.
-  - destruct st2 as [|c2 sn2|ns2 sa2 sb2|sa2' sb2'|v2|? ? ?]; try contradiction Hs.
+  - destruct st2 as [|c2 sn2|ns2 sa2 sb2|sa2' sb2'|v2]; try contradiction Hs.
     destruct Hs as (Hn & Ha & Hb). rewrite leafev2_bin. simpl. rewrite Hk, (nrel_ph _ _ Hn), !bin_in_embed.
     destruct (C.ph ns); simpl.
     + step_leaf IHa. rewrite thrown_embed. destruct r as [oa|]; simpl; [|apply leaf_rel_intro; fin].
@@ -1002,7 +939,7 @@ Ltac dflag :=
 
 Ltac conc_go Hk IHa IHb :=
   repeat (simpl; sync_flags;
-          first [ progress reap_norm | solve [fc Hk] | solve [some_fin; fin]
+          first [ solve [fc Hk] | solve [some_fin; fin]
                 | step_stop IHb | step_stop IHa | step_ccd Hk | dopt | dbool | dflag ]).
 
 Lemma conc_stop_ok : forall k a b, C.is_seq k = false -> stop_ok a -> stop_ok b -> stop_ok (C.Bin k a b).
@@ -1011,7 +948,7 @@ Proof.
   destruct st as [|c sn|ns sa sb].
   - rewrite stop1_fin, stop2_inert by exact Hs. fin.
   - simpl in Hs. subst st2. simpl. fin.
-  - destruct st2 as [|c2 sn2|ns2 sa2 sb2|sa2' sb2'|v2|? ? ?]; try contradiction Hs.
+  - destruct st2 as [|c2 sn2|ns2 sa2 sb2|sa2' sb2'|v2]; try contradiction Hs.
     destruct Hs as (Hn & Ha & Hb). rewrite stop2_bin. simpl. rewrite Hk. unfold stop2_conc.
     rewrite (nrel_own _ _ Hn). destruct (C.own_stop ns); [fin|].
     assert (Hn1 : nrel (C.ns_set_own (C.ns_set_env ns (C.env_with_stop (C.n_env ns) true)) true)
@@ -1024,7 +961,7 @@ Qed.
 
 Ltac conc_leaf_go Hk IHla IHlb IHsa IHsb :=
   repeat (simpl; sync_flags; rewrite ?thrown_embed;
-          first [ progress reap_norm | solve [apply leaf_rel_intro; fc Hk] | solve [apply leaf_rel_intro; some_fin; fin]
+          first [ solve [apply leaf_rel_intro; fc Hk] | solve [apply leaf_rel_intro; some_fin; fin]
                 | step_leaf IHla | step_leaf IHlb | step_stop IHsb | step_stop IHsa | step_ccd Hk
                 | dopt | dbool | dflag ]).
 
@@ -1036,7 +973,7 @@ Proof.
   destruct st as [|c sn|ns sa sb].
   - rewrite leafev1_fin, leafev2_inert by exact Hs. apply leaf_rel_intro. fin.
   - simpl in Hs. subst st2. simpl. apply leaf_rel_intro. fin.
-  - destruct st2 as [|c2 sn2|ns2 sa2 sb2|sa2' sb2'|v2|? ? ?]; try contradiction Hs.
+  - destruct st2 as [|c2 sn2|ns2 sa2 sb2|sa2' sb2'|v2]; try contradiction Hs.
     destruct Hs as (Hn & Ha & Hb). rewrite leafev2_bin. simpl. rewrite Hk. unfold leafev2_conc.
     rewrite tmode_embed.
     conc_leaf_go Hk IHla IHlb IHsa IHsb.
